@@ -37,6 +37,7 @@ var kindNames = [...]string{"AddWarrior", "SpawnWarrior", "RunCycle", "Run", "Re
 const (
 	idxCount  = 1000
 	idxCount1 = 1001
+	idxLast   = 1002 // the warrior added last (count-1)
 )
 
 type apiCall struct {
@@ -67,6 +68,8 @@ func idxName(i int) string {
 		return "count"
 	case idxCount1:
 		return "count+1"
+	case idxLast:
+		return "count-1"
 	}
 	return fmt.Sprint(i)
 }
@@ -83,6 +86,7 @@ var pool = []ref.Warrior{
 	{Code: []ref.Instr{{Op: ref.MOV, Mod: ref.MI, B: 1}}},
 	{Code: []ref.Instr{{Op: ref.NOP, Mod: ref.MB}, {Op: ref.DAT}}},
 	{Code: []ref.Instr{{Op: ref.ADD, Mod: ref.MAB, AM: ref.Immediate, A: 1, B: 1}, {Op: ref.JMP, Mod: ref.MB, A: -1}}, Start: 1},
+	{Code: []ref.Instr{{Op: ref.SPL, Mod: ref.MB}, {Op: ref.JMP, Mod: ref.MB, A: -1}}}, // splitter that cannot die on its own
 }
 
 func poolWarrior(i, m int) ref.Warrior {
@@ -141,6 +145,8 @@ func (r *apiRun) resolveIdx(i int) int {
 		return len(r.b.Ws)
 	case idxCount1:
 		return len(r.b.Ws) + 1
+	case idxLast:
+		return len(r.b.Ws) - 1
 	}
 	return i
 }
@@ -383,7 +389,7 @@ func genCall(t *rapid.T, m int) apiCall {
 	case 2, 3, 4:
 		c.Kind = kSpawn
 		c.I = rapid.SampledFrom([]int{-1, 0, 0, 1, 1, 2, idxCount, idxCount1}).Draw(t, "i")
-		c.Off = rapid.SampledFrom([]int{0, m - 1, m, 2*m + 3, 1, 2, m / 2}).Draw(t, "off")
+		c.Off = rapid.SampledFrom([]int{0, m - 1, m, 2*m + 3, 1, 2, m / 2, -1, -2, -m - 1, 1<<63 - 1, -1 << 63, 1 << 32}).Draw(t, "off")
 	case 5, 6, 7:
 		c.Kind = kRunCycle
 	case 8:
@@ -431,7 +437,12 @@ func genAPICase(t *rapid.T) apiCase {
 	n := rapid.IntRange(1, 60).Draw(t, "n")
 	if gen.Rare(t, "long", 7) {
 		n = rapid.IntRange(300, 1500).Draw(t, "nlong") // many rounds, resets and respawns on one simulator
-		c.Cfg.Cycles = rapid.SampledFrom([]int{10, 300, 1000}).Draw(t, "cycleslong")
+		c.Cfg.Cycles = rapid.SampledFrom([]int{10, 300, 1000, 3000}).Draw(t, "cycleslong")
+		if rapid.Bool().Draw(t, "bigP") {
+			// with the splitter of the pool the queue passes 256 entries while its head moves
+			c.Cfg.P = rapid.SampledFrom([]int{257, 300, 1000, 1025}).Draw(t, "Pbig")
+			c.Calls = append(c.Calls, apiCall{Kind: kAdd, I: 6}, apiCall{Kind: kSpawn, I: idxLast, Off: rapid.IntRange(0, c.Cfg.M-1).Draw(t, "sploff")})
+		}
 	}
 	for i := 0; i < n; i++ {
 		c.Calls = append(c.Calls, genCall(t, c.Cfg.M))
@@ -454,7 +465,7 @@ func alphabet(m int) []apiCall {
 	return []apiCall{
 		{Kind: kAdd, I: 0}, {Kind: kAdd, I: 1}, {Kind: kAdd, I: 5}, {Kind: kAdd, I: 4},
 		{Kind: kSpawn, I: 0, Off: 0}, {Kind: kSpawn, I: 1, Off: m - 1}, {Kind: kSpawn, I: -1, Off: 0},
-		{Kind: kSpawn, I: idxCount, Off: 0}, {Kind: kSpawn, I: 0, Off: 2*m + 3},
+		{Kind: kSpawn, I: idxCount, Off: 0}, {Kind: kSpawn, I: 0, Off: 2*m + 3}, {Kind: kSpawn, I: 1, Off: -2},
 		{Kind: kRunCycle}, {Kind: kRun}, {Kind: kReset},
 		{Kind: kGetWarrior, I: 0}, {Kind: kGetWarrior, I: -1}, {Kind: kGetWarrior, I: idxCount},
 		{Kind: kNextPC, I: 0}, {Kind: kQueue, I: 0}, {Kind: kNextPC, I: 1}, {Kind: kGetMem, Off: m + 1}, {Kind: kAlive, I: 1},
@@ -577,6 +588,8 @@ func rawDo(sim gmars.Simulator, own *[]gmars.Warrior, c apiCall, m int) (obs str
 			return len(*own)
 		case idxCount1:
 			return len(*own) + 1
+		case idxLast:
+			return len(*own) - 1
 		}
 		return i
 	}
